@@ -21,7 +21,7 @@ LEVEL_TEXT = ("The unit table is regenerated from units.py on every run and the 
 LEVEL_NOTE = ("Trusted: Lean kernel; translator for the table; reference constants hand-written in Props/C12.lean (US cup 236.5882365 ml, imperial pint "
               "568.26125 ml, lb 453.59237 g). Recognition of every name in any letter case/spacing/preposition is enumerated completely through the real "
               "compile() by the oracle and (once the parser model is tied in) by correspondence; the universal case-folding lemma is not yet a theorem.")
-LEAN_MODULES = ["RecipeGrid.Props.C12", "RecipeGrid.Props.C12b"]
+LEAN_MODULES = ["RecipeGrid.Props.C12", "RecipeGrid.Props.C12b", "RecipeGrid.Props.C12c"]
 SOURCES = ["recipe_grid/units.py", "recipe_grid/recipe.py", "recipe_grid/renderer/html.py", "recipe_grid/parser/grammar.peg"]
 EXHAUSTIVE = True
 RULE = ("complete enumeration: all ordered pairs of the unit names (conversion, both layers), every name (alternative list, rendering), every name x "
